@@ -90,6 +90,27 @@ pub fn run(ctx: &Ctx) -> Outcome {
     let mut rep = run_sharded(ctx, |w, nw, rep| {
         let ls = LangSet::new();
         let mut rng = Rng::derive(ctx.seed, "C11", w as u64);
+        // bounded exhaustive part: every text of up to 3 (thorough: 4) words over the small alphabet of each language,
+        // in its all-upper-case and its capitalised form
+        let (n_small, cut) = crate::streams::for_each_small_stream(&ls.lex, if ctx.quick() { 3 } else { 4 }, w, nw, &|| ctx.elapsed() > ctx.budget_s * 0.4, &mut |code, toks| {
+            let s: String = toks.iter().map(|t| t.text.as_str()).collect::<Vec<_>>().join(" ");
+            for form in 0..2 {
+                let r: String = if form == 0 { s.to_uppercase() } else { toks.iter().map(|t| crate::spell::capitalize(&t.text)).collect::<Vec<_>>().join(" ") };
+                if r.to_lowercase() != s.to_lowercase() {
+                    rep.count("skipped_case_mapping_not_reversible");
+                    continue;
+                }
+                let (in_domain, n_occ, fail) = check(&ls, code, &s, &r);
+                rep.eval(hash_bytes(&[code.as_bytes(), s.as_bytes(), r.as_bytes()]), in_domain && n_occ > 0 && r != s);
+                if let Some(msg) = fail {
+                    rep.violation(&format!("{}:{}", code, msg.split(':').next().unwrap_or("").chars().take(24).collect::<String>()), jobj! {"kind" => "recase", "lang" => code, "s" => s.as_str(), "r" => r.as_str()}, format!("[{}] {}", code, msg));
+                }
+            }
+        });
+        rep.add("exhaustive_small_alphabet_texts", n_small);
+        if cut {
+            rep.count("exhaustive_enumeration_cut_by_budget");
+        }
         for i in 0..(n_texts / nw as u64) {
             if i % 128 == 0 && ctx.over_budget() {
                 break;
@@ -145,7 +166,7 @@ pub fn run(ctx: &Ctx) -> Outcome {
     if !ctx.quick() {
         super::legs::fuzz_leg(ctx, &mut rep, 45);
     }
-    let rule = "cases = (text, recased text): texts from hostile text, annotator-state templates and lower-case sentences rich in linking words between small numbers; recasing = all upper / capitalised / per-character random, applied only to characters whose upper-then-lower mapping returns to themselves; compared: validation result, token count, occurrences tuple for tuple at thresholds 0,3,10,inf, and the rewrite of the recased text against the splice of its own tokens; a quarter of the cases are hinted caller-token streams (not-a-number and separation hints kept on the same tokens) compared before/after recasing; non-trivial = recasing changed the text and at least one number was recognised";
+    let rule = "cases = (text, recased text): every text of 1..3 (thorough 1..4) words over a 16-word alphabet per language in upper-case and capitalised form (counter exhaustive_small_alphabet_texts); texts from hostile text, annotator-state templates and lower-case sentences rich in linking words between small numbers; recasing = all upper / capitalised / per-character random, applied only to characters whose upper-then-lower mapping returns to themselves; compared: validation result, token count, occurrences tuple for tuple at thresholds 0,3,10,inf, and the rewrite of the recased text against the splice of its own tokens; a quarter of the cases are hinted caller-token streams (not-a-number and separation hints kept on the same tokens) compared before/after recasing; non-trivial = recasing changed the text and at least one number was recognised";
     finish(ctx, rep, rule, &["texts whose whole-string lowercase differs after recasing (context-dependent mappings such as final sigma) are outside the quantifier and skipped"], vec![])
 }
 
